@@ -16,8 +16,8 @@ const appctlPkg = "pkg/appctl"
 
 func propC20() *Property {
 	return &Property{
-		ID:      "C20",
-		Decides: "R20.1 the two merge functions are exhaustive over the generated configuration messages (a field added to the .proto and not to the merge is reported by name) and every merged field is selected by a nil test of the same field of the patch and fed from the same field of patch/stored config; R20.2 the share-link writer and reader use the same query keys, scheme strings and base64 alphabet, and user name / password are taken from the parsed URL as they are (no second unescaping); R20.3 the stored server file never holds a plaintext password: the only write of the server config file is in StoreServerConfig, dominated by HashUserPasswords(users, false) whose result is what gets marshalled, and HashUserPassword with keepPlaintext=false has no feasible return that keeps a non-empty Password; R20.4 a patch is merged into the loaded/fetched configuration and fully validated before it is stored — for the local apply functions and for the CLI's RPC path; R20.5 string slicing with a constant bound in the link parsers is guarded by a length/prefix test; R20.6 each store function writes the file once with the complete marshalled message.; R20.7 the traffic-pattern validator and the cipher (which panics on a decode failure) hand the same string - the configured element itself, with no normalisation on one side only - to hex.DecodeString, so a validated configuration cannot crash the process at its first encryption",
+		ID:         "C20",
+		Decides:    "R20.1 the two merge functions are exhaustive over the generated configuration messages (a field added to the .proto and not to the merge is reported by name) and every merged field is selected by a nil test of the same field of the patch and fed from the same field of patch/stored config; R20.2 the share-link writer and reader use the same query keys, scheme strings and base64 alphabet, and user name / password are taken from the parsed URL as they are (no second unescaping); R20.3 the stored server file never holds a plaintext password: the only write of the server config file is in StoreServerConfig, dominated by HashUserPasswords(users, false) whose result is what gets marshalled, and HashUserPassword with keepPlaintext=false has no feasible return that keeps a non-empty Password; R20.4 a patch is merged into the loaded/fetched configuration and fully validated before it is stored — for the local apply functions and for the CLI's RPC path; R20.5 string slicing with a constant bound in the link parsers is guarded by a length/prefix test; R20.6 each store function writes the file once with the complete marshalled message.; R20.7 the traffic-pattern validator and the cipher (which panics on a decode failure) hand the same string - the configured element itself, with no normalisation on one side only - to hex.DecodeString, so a validated configuration cannot crash the process at its first encryption",
 		NotDecided: "round-trip equality for every field content (URL escaping, base64 of arbitrary strings, JSON/protobuf equivalence are library behaviour); start-up of a stored configuration; run-time panics beyond the constant-bound slice pattern.",
 		Rules: []Rule{
 			{ID: "R20.1", Floor: 16, Text: "mergeServerConfig / mergeClientConfigByProfile assign every exported field of the message after proto.Reset, each from the same-named field", Run: r20_1},
